@@ -25,10 +25,11 @@ from pathlib import Path
 from vlib import driver
 from vlib.framework import WORK
 
+from . import c17gen
 from .c08 import _val, close, lean_val
 
 PROPS = ["MxlVerif.Props.C17"]
-SCRATCH = WORK / "c17"
+SCRATCH = WORK / f"c17-{os.getpid()}"  # per run: two checks in one checkout must not remove each other's files
 # IPython (pulled in by a dependency) keeps a history database in $IPYTHONDIR: parallel checks must not share it
 os.environ.setdefault("IPYTHONDIR", str(WORK / f"ipython-{os.getpid()}"))
 atexit.register(shutil.rmtree, WORK / f"ipython-{os.getpid()}", ignore_errors=True)  # runs after IPython's own hook
@@ -227,7 +228,7 @@ def uses_all(rng, g, m, names):
 
 
 def gen_doc(rng, *, stratum: str):
-    """stratum: exact | float | keywords | mixed | srefkw | compkw | initname | digits | gennames | rewrite"""
+    """stratum: exact | float | keywords | mixed | srefkw | compkw | initname | digits | gennames | rewrite | gencollide | sparse | nearequal | idcollide"""
     floaty = stratum == "float"
     GM.SMOOTH = stratum == "digits"
     kw = stratum == "keywords"
@@ -371,7 +372,129 @@ def gen_doc(rng, *, stratum: str):
             rxns.insert(rng.choice([0, len(rxns)]),
                         {"id": f"init_{x}", "reactants": [[other, "1", None]], "products": [],
                          "law": uses_all(rng, g, g.num(1), [other])})
-    finding = {"mixed": "F-C17-4", "srefkw": "F-C17-5", "compkw": "F-C17-6"}.get(stratum)
+    if stratum == "gencollide" and const_ps:
+        # names the importer generates itself meeting each other: init_<x> / <x>_ / <r>_stoich_<s> / a reaction
+        # called init.  Every helper function must stay the function of its own component.
+        def ia(names):
+            g = GM(rng, names, floaty=False)
+            return ["AST_PLUS", [["AST_TIMES", [g.num(1), ["cn", rng.choice(["2", "3", "1/2"])]]], ["cn", rng.choice(["1", "5", "7/2"])]]]
+
+        variant = rng.choice(["init_twins", "init_twins", "init_rxn_stoich", "stoich_twins"])
+        p = const_ps[0]
+        others = const_ps[1:]
+        s0 = species[0]["id"]
+        if variant == "init_twins":
+            # p and p_ both carry an initial assignment, and a rule-defined quantity or a reaction is called init_<p>
+            inits[:] = [kv for kv in inits if kv[0] != p]
+            inits.append([p, ia(others)])
+            params.append([p + "_", rng.choice([None, "4"])])
+            inits.append([p + "_", ia(others)])
+            if rng.random() < 0.3:
+                params.append([p + "__", None])
+                inits.append([p + "__", ia(others)])
+            if rng.random() < 0.6:
+                params.append([f"init_{p}", None])
+                rules.append([f"init_{p}", ia([s0] + others)])
+                if rng.random() < 0.4:
+                    params.append([f"init_{p}_", None])
+                    rules.append([f"init_{p}_", ia([s0] + others)])
+            else:
+                g = GM(rng, law_names, floaty=False, funs=funs)
+                rxns.insert(rng.choice([0, len(rxns)]), {"id": f"init_{p}", "reactants": [[s0, "1", None]], "products": [],
+                                                          "law": uses_all(rng, g, g.num(1), [s0])})
+        elif variant == "init_rxn_stoich":
+            # a reaction called init with a rule-defined coefficient on s0 (-> init_stoich_<s0>) next to a
+            # parameter stoich_<s0> with an initial assignment (-> init_stoich_<s0>)
+            g = GM(rng, law_names, floaty=False, funs=funs)
+            sref_n += 1
+            sref_id = f"sr{sref_n}_{s0}"
+            rules.append([sref_id, ["AST_PLUS", [["AST_FUNCTION_ABS", [GM(rng, const_ps, floaty=False).num(1)]], ["cn", "1"]]]])
+            rxns.insert(rng.choice([0, len(rxns)]), {"id": "init", "reactants": [], "products": [[s0, None, sref_id]],
+                                                      "law": uses_all(rng, g, g.num(1), [s0])})
+            params.append([f"stoich_{s0}", rng.choice([None, "2"])])
+            inits.append([f"stoich_{s0}", ia(const_ps)])
+        else:
+            # species s and s_ both with a rule-defined coefficient in R, and a reaction called R_stoich_<s>
+            r0 = rxns[0]
+            twin = dict(species[0], id=s0 + "_", init=species[0]["init"] or "2")
+            species.append(twin)
+            r0["reactants"] = [x for x in r0["reactants"] if x[0] != s0]
+            r0["products"] = [x for x in r0["products"] if x[0] != s0]
+            for sid in (s0, s0 + "_"):
+                sref_n += 1
+                sref_id = f"sr{sref_n}_{sid}"
+                rules.append([sref_id, ["AST_PLUS", [["AST_FUNCTION_ABS", [GM(rng, const_ps, floaty=False).num(1)]],
+                                                     ["cn", rng.choice(["1", "2", "3"])]]]])
+                (r0["reactants"] if rng.random() < 0.5 else r0["products"]).append([sid, None, sref_id])
+            g = GM(rng, law_names, floaty=False, funs=funs)
+            rxns.insert(rng.choice([0, len(rxns)]), {"id": f"{r0['id']}_stoich_{s0}", "reactants": [],
+                                                      "products": [[s0, rng.choice(["1", "2"]), None]],
+                                                      "law": uses_all(rng, g, g.num(1), [s0])})
+    if stratum == "sparse":
+        # documents with none of some container
+        variant = rng.choice(["species_only", "no_reactions", "no_params", "bare"])
+        sp_ids = [s_["id"] for s_ in species]
+        if variant == "species_only":
+            params, inits, rules, fundefs = [], [kv for kv in inits if kv[0] in sp_ids and False], [], []
+            g = GM(rng, sp_ids, floaty=False)
+            rxns = [{"id": "R1", "reactants": [[sp_ids[0], "1", None]], "products": [], "law": uses_all(rng, g, g.num(2), sp_ids[:1])}]
+        elif variant == "no_reactions":
+            species, rxns = [], []
+            rules = [kv for kv in rules if not (set(math_names(kv[1])) & set(sp_ids))]
+            rules = [kv for kv in rules if kv[0] in [p_ for p_, _ in params]]
+            inits = [kv for kv in inits if kv[0] not in sp_ids]
+        elif variant == "no_params":
+            params, inits, rules = [], [], []
+            g = GM(rng, sp_ids, floaty=False, funs=funs)
+            rxns = [{"id": rid, "reactants": [[sp_ids[0], rng.choice(STOICH), None]], "products": [[sp_ids[-1], "1", None]],
+                     "law": uses_all(rng, g, g.num(2), sp_ids[:1])} for rid in rids[:2]]
+        else:
+            params, inits, rules, fundefs = [[pids[0], "2"]], [], [], []
+            rxns = [{"id": "R1", "reactants": [[sp_ids[0], "1", None]], "products": [],
+                     "law": ["AST_TIMES", [["ci", pids[0]], ["ci", sp_ids[0]]]]}]
+        for s_ in species:
+            if s_["init"] is None and s_["id"] not in [k for k, _ in inits]:
+                s_["init"] = "1"
+        while True:  # drop what lost its definition
+            defined = ({s_["id"] for s_ in species} | {c for c, _ in comps} | {p_ for p_, v_ in params if v_ is not None}
+                       | {k for k, _ in rules} | {k for k, _ in inits if k in [p_ for p_, _ in params]})
+            rules2 = [kv for kv in rules if set(math_names(kv[1])) <= defined and kv[0] in [p_ for p_, _ in params]]
+            inits2 = [kv for kv in inits if set(math_names(kv[1])) <= defined]
+            params2 = [pv for pv in params if pv[1] is not None or pv[0] in [k for k, _ in rules2] + [k for k, _ in inits2]]
+            if (rules2, inits2, params2) == (rules, inits, params):
+                break
+            rules, inits, params = rules2, inits2, params2
+    near = []
+    if stratum == "nearequal":
+        # relational conditions between two quantities, evaluated at states where they are equal, differ in the
+        # 12th-13th digit, or differ clearly: MathML relations are exact
+        comp_size = {c: Fraction(v) for c, v in comps}
+        pvals = {p_: Fraction(v_) for p_, v_ in params if v_ is not None and p_ not in [k for k, _ in inits]}
+        rels = ["AST_RELATIONAL_EQ", "AST_RELATIONAL_NEQ", "AST_RELATIONAL_EQ", "AST_RELATIONAL_NEQ",
+                "AST_RELATIONAL_LT", "AST_RELATIONAL_LEQ", "AST_RELATIONAL_GT", "AST_RELATIONAL_GEQ"]
+        for r_ in rxns:
+            sid = (r_["reactants"] + r_["products"])[0][0]
+            if pvals and rng.random() < 0.6:
+                pn = rng.choice(sorted(pvals))
+                target, tval = ["ci", pn], pvals[pn]
+            else:
+                c_ = rng.choice(["1", "2", "1/2", "3"])
+                target, tval = ["cn", c_], Fraction(c_)
+            if tval == 0:
+                target, tval = ["cn", "1"], Fraction(1)
+            cond = [rng.choice(rels), [["ci", sid], target] if rng.random() < 0.7 else [target, ["ci", sid]]]
+            if rng.random() < 0.25:
+                cond = ["AST_LOGICAL_NOT", [cond]]
+            r_["law"] = ["AST_FUNCTION_PIECEWISE", [r_["law"], cond, ["AST_PLUS", [["AST_TIMES", [r_["law"], ["cn", "2"]]], ["cn", "1"]]]]]
+            near.append((sid, tval))
+    if stratum == "idcollide":
+        # two distinct legal SBML ids that pysbml's name_to_py maps to one Python name (the mapping is injective
+        # only on ids without `__` that are not `<keyword>_`: Props/C17.lean, C17_name_mapping_injective)
+        a_, b_ = rng.choice([("if", "if_"), ("class", "class_"), ("x__46__y", "xy"), ("n__45__1", "n_1"), ("lambda_", "lambda")])
+        params.append([a_, "2"])
+        params.append([b_, "5"])
+        rxns[0]["law"] = ["AST_PLUS", [rxns[0]["law"], ["AST_TIMES", [["ci", a_], ["AST_PLUS", [["ci", b_], ["cn", "1"]]]]]]]
+    finding = {"mixed": "F-C17-4", "srefkw": "F-C17-5", "compkw": "F-C17-6", "idcollide": "F-C17-10"}.get(stratum)
     if stratum == "srefkw" and sref_n == 0:
         finding = None
     all_ids = ([c for c, _ in comps] + [s["id"] for s in species] + [p for p, _ in params] + [f["id"] for f in fundefs]
@@ -379,6 +502,18 @@ def gen_doc(rng, *, stratum: str):
     if len(set(all_ids)) != len(all_ids):
         return gen_doc(rng, stratum=stratum)  # ids of a document are unique: draw again
     states = [[[s["id"], rng.choice(["0", "1", "2", "3", "4", "1/2", "3/2", "6"])] for s in species] for _ in range(3)]
+    if near:
+        states.append([list(x) for x in states[0]])
+        for st in states:
+            for sid, tval in near:
+                sp = next(x for x in species if x["id"] == sid)
+                delta = rng.choice([Fraction(0), Fraction(1, 2 ** 40), -Fraction(1, 2 ** 40), Fraction(1, 2 ** 36),
+                                    -Fraction(1, 2 ** 33), Fraction(1, 2 ** 31), Fraction(1, 4)])
+                sym_v = tval * (1 + delta)
+                amount = sym_v if sp["hosu"] else sym_v * comp_size[sp["comp"]]
+                for x in st:
+                    if x[0] == sid:
+                        x[1] = str(amount)
     doc = {"comps": comps, "species": species, "params": params, "fundefs": fundefs, "inits": inits, "rules": rules,
            "rxns": rxns}
     prev_doc = None
@@ -833,11 +968,24 @@ def real_worker(job):
             return {"err": "import:" + type(e).__name__, "msg": str(e)[:200]}
         try:
             out = eval_imported(m, case, imp)
-            fn = next(iter(m.get_raw_reactions().values())).fn
-            out["module"] = fn.__module__
+            fns = [c.fn for c in list(m.get_raw_reactions().values()) + list(m.get_raw_derived().values())]
+            out["module"] = fns[0].__module__ if fns else None
             out["stem"] = path.stem
         except Exception as e:  # noqa: BLE001
             return {"err": "eval:" + type(e).__name__, "msg": str(e)[:200]}
+        try:
+            # mxlpy's own stage: pysbml's transformed model (its input) and the module it wrote (its output)
+            if fns:
+                module_file = sys.modules[fns[0].__module__].__file__
+            else:
+                from mxlpy.paths import default_tmp_dir
+
+                module_file = max(default_tmp_dir(None, remove_old_cache=False).glob(f"mb_c17w{wid}_*.py"),
+                                  key=lambda p: p.stat().st_mtime_ns)
+            pmodel, mod = c17gen.glue_observation(path, module_file)
+            out["glue"] = {"pmodel": pmodel, "module": mod}
+        except Exception as e:  # noqa: BLE001
+            out["glue_err"] = f"{type(e).__name__}: {str(e)[:200]}"
         return out
     finally:
         _cleanup([path], [f"mb_c17w{wid}"])
@@ -1089,6 +1237,18 @@ def lean_docs(ctx, cases):
     return driver.call_batch([{"op": "c17", "doc": c["doc"], "states": c["states"], "watch": c["watch"]} for c in cases])
 
 
+def check_glue(ctx, cases, Rs):
+    """mxlpy's own stage on every imported document: `genModule (importSym <pysbml model>)` against the module text"""
+    todo = [(c, R["glue"]) for c, R in zip(cases, Rs) if "glue" in R]
+    for c, R in zip(cases, Rs):
+        if "glue_err" in R:
+            ctx.violation({k: c.get(k) for k in ("kind", "doc", "states", "watch", "stem", "raw", "finding")}, R["glue_err"],
+                          "the module written by sbml.read could not be read back as a chain of add_* calls")
+    Ms = driver.call_batch([{"op": "c17", "pmodel": g["pmodel"]} for _, g in todo]) if ctx.driver_ok else [None] * len(todo)
+    for (c, g), M in zip(todo, Ms):
+        c17gen.judge_glue(ctx, {k: c.get(k) for k in ("doc", "states", "watch", "stem", "raw")}, g, M)
+
+
 def check_free_name(ctx):
     """`_free_name` against `freeName`"""
     try:
@@ -1152,7 +1312,7 @@ def setup(ctx):
 def strata(ctx):
     n = ctx.n(1, 40)
     return [("exact", 110 * n), ("float", 60 * n), ("keywords", 40 * n), ("initname", 15 * n), ("mixed", 15 * n),
-            ("srefkw", 12 * n), ("compkw", 6 * n), ("digits", 12 * n), ("gennames", 24 * n), ("rewrite", 20 * n)]
+            ("srefkw", 12 * n), ("compkw", 6 * n), ("digits", 12 * n), ("gennames", 24 * n), ("rewrite", 20 * n), ("gencollide", 24 * n), ("sparse", 12 * n), ("nearequal", 24 * n), ("idcollide", 6 * n)]
 
 
 PAIR_STEMS = [("Model-1", "model 1"), ("A", "a"), ("m.v2", "mv2"), ("x", "x"), ("my  model", "my-model")]
@@ -1170,8 +1330,7 @@ def run(ctx):
         for case, R, M in zip(chunk, Rs, Ms):
             ctx.count({"doc": case["doc"], "states": case["states"]}, case["kind"], "err" not in R)
             judge_doc(ctx, case, R, M)
-            if M is not None and "module" in R and ctx.driver_ok:
-                pass
+        check_glue(ctx, chunk, Rs)
         if len(ctx.violations) > 20:
             break
     # two documents, one session
@@ -1197,6 +1356,7 @@ def run(ctx):
         ctx.judge(case, Rv, S, None, what="a second document read in the same session interferes with the first model")
     check_stems(ctx)
     check_free_name(ctx)
+    c17gen.check_codegen(ctx)
     docs = [v for v in ctx.violations if "case" in v and "doc" in v["case"]]
     if docs:
         from vlib.framework import canon
@@ -1215,6 +1375,22 @@ def replay(ctx, rp):
     case = rp["case"]
     if "free" in case or "stem" in case and "doc" not in case:
         print("replay of naming cases: rerun the check")
+        return
+    if case.get("kind") == "codegen":
+        M = driver.call_batch([{"op": "c17", "symrepr": case["symrepr"]}])[0] if ctx.driver_ok else None
+        R = c17gen.run_real_sym(case["symrepr"])
+        print("R =", json.dumps(R)[:3000])
+        print("M =", json.dumps(M)[:3000])
+        print("S =", json.dumps(c17gen.spec_calls(case["symrepr"]))[:3000])
+        c17gen.judge_sym(ctx, case, R, M)
+        return
+    if case.get("kind") == "import-glue":
+        full = dict(case, kind="exact", finding=None, prev_doc=None, stem=case.get("stem") or "model")
+        M = lean_docs(ctx, [full])[0]
+        R = real_worker((full, dict(M["names"]) if M else {}))
+        print("R =", json.dumps(R, indent=1)[:6000])
+        check_glue(ctx, [full], [R])
+        shutil.rmtree(SCRATCH, ignore_errors=True)
         return
     if case.get("kind") == "pair":
         a = dict(case["a"], kind="exact", finding=None, stem="x", pair_stems=case["stems"])
